@@ -422,3 +422,14 @@ func VH_C34_Map_DelIndex() {
 	vhAssert(vhSameMap(a, b, probe), "DelIndex(k) has the effect of delete(m, k)")
 	vhReach("end")
 }
+
+func VH_C34_Slice_CopyOverlap() {
+	a, b := vhTwoSlices("s", 3, 0)
+	lo, hi := vhPick("dst offset", 3), vhPick("src offset", 3)
+	m := vhCTIContainer(vhSliceT, "Copy")
+	_, gp := m.call(r.ValueOf(a[lo:]), r.ValueOf(a[hi:]))
+	vhAssert(!gp, "no panic")
+	copy(b[lo:], b[hi:])
+	vhAssert(vhSameSlice(a, b), "Copy between overlapping parts of one array behaves as Go's copy (memmove)")
+	vhReach("end")
+}
